@@ -23,6 +23,17 @@ CLAIMS = {
         "Trusts CPython's struct semantics and the analyser; idioms other than struct.unpack/unpack_from/int.from_bytes "
         "yield exit 2 (analysis error), never a verdict.",
         "DESIGN.md §4 C01"),
+    "C07": (
+        "enumeration of partial operations (table lookups, constant indexes into possibly-short lists, dereferences of "
+        "possibly-None values) from symbolic interpretation, each discharged by guard reasoning over its path condition",
+        "Decided for the enumerated classes of partial access over all decoders, their renderings and the parser's methods: "
+        "each access is shown to be covered on every path by a membership test of the same key, a length fact, a None test, "
+        "iteration over the same table, .get, a dominating store or a matching try/except. This quantifies over all "
+        "histories because the facts do not depend on which records were seen. Truthiness of a key is not accepted as "
+        "membership.",
+        "Enum(x) for undeclared x and .decode() of invalid text are outside the property's premise; windows are non-empty by "
+        "C04 so events[0]/events[-1]/ktraces[0] are not tracked; non-constant indexes (bisect results) are C15's.",
+        "DESIGN.md §4 C07"),
     "C09": (
         "symbolic interpretation of handler + dataclass __str__ into output templates; per-position provenance of every hole",
         "Decided in full for the call part: for each of the ~400 BSC_/MSC_ registry keys the rendered text is derived as "
